@@ -118,6 +118,7 @@ class World:
         self.tampers: t.Dict[int, t.Callable] = {}  # connection index -> tamper callable (reply path)
         self.tx_tampers: t.Dict[int, t.Callable] = {}  # connection index -> tamper callable (request path)
         self.refuse: t.Set[t.Tuple[str, int]] = set()
+        self.slow_connect: t.Set[t.Tuple[str, int]] = set()  # connects that take longer than any client timeout
         self.partitioned = False
         self.connect_attempts: t.List[t.Tuple[str, int]] = []
         self.dns_queries: t.List[tuple] = []
@@ -162,6 +163,10 @@ class World:
         peer = self._lookup(host, port)
         if peer is None:
             raise ConnectionRefusedError(111, "Connection refused")
+        if (host, port) in self.slow_connect or ("*", 0) in self.slow_connect:
+            self.stats["slowconn"] += 1
+            self.clock.advance_ns(int((timeout or 60) * 1e9))  # the caller waited for its whole timeout
+            raise TimeoutError("timed out")
         idx, spec = self._conn_spec()
         conn = net.SimSocket(self, idx, host, port, peer, spec)
         conn._timeout = timeout if isinstance(timeout, (int, float)) else None  # like socket.create_connection(timeout=...)
